@@ -31,6 +31,8 @@ func sameRecord(got *ae.EnvelopeKeyRecord, r *row) bool {
 	return ok
 }
 
+func readFaults() int { return vx.Faulted("read", "sql.fetch") + vx.Faulted("read", "ddb.call") }
+
 // program drives a symbolic sequence of Store/Load/LoadLatest against m and checks it against a reference table
 // kept by value (the marshalling metastores hand back fresh objects). afterOp, if set, runs after each operation.
 func program(m ae.Metastore, tag string, keyLens []int, afterOp func()) {
@@ -82,11 +84,11 @@ func program(m ae.Metastore, tag string, keyLens []int, afterOp func()) {
 			// readfaults=1: fetching the row may fail after the statement was accepted; a failed read is an error -
 			// an answer given without an error is held to the same obligations as ever (a stored record is never
 			// reported absent)
-			f0 := vx.Faulted("read", "sql.fetch")
+			f0 := readFaults()
 			vx.FaultBudget("read", vx.Param("readfaults"))
 			got, err := m.Load(env.Ctx, id, c)
 			vx.FaultBudget("read", 0)
-			faulted := vx.Faulted("read", "sql.fetch") > f0
+			faulted := readFaults() > f0
 			if err != nil {
 				vx.Tag("load_error", err.Error())
 			}
@@ -107,11 +109,11 @@ func program(m ae.Metastore, tag string, keyLens []int, afterOp func()) {
 				}
 			}
 		case 2: // LoadLatest
-			f0 := vx.Faulted("read", "sql.fetch")
+			f0 := readFaults()
 			vx.FaultBudget("read", vx.Param("readfaults"))
 			got, err := m.LoadLatest(env.Ctx, id)
 			vx.FaultBudget("read", 0)
-			faulted := vx.Faulted("read", "sql.fetch") > f0
+			faulted := readFaults() > f0
 			if err != nil {
 				vx.Tag("latest_error", err.Error())
 			}
